@@ -16,8 +16,5 @@ def run(ctx, rep):
     rep.rules['M-C11a']['text'] = 'substitution precedes compilation at every regex-bearing site (skip, regex) and inside Subpatterns::new (against the table built so far, before insert)'
     rep.rules['M-C11a']['floor'] = 3
     rep.trusted += ['rustc nightly MIR; encoding of format_args! templates on this nightly (decoder fails closed)', 'engines/mirfacts', 'regex-syntax group and flag semantics']
-    try:
-        from props import gen
-        gen.rules_c11(ctx, rep)
-    except ImportError:
-        pass
+    from props import gen
+    gen.rules_c11(ctx, rep)
